@@ -133,16 +133,18 @@ Image(d) ==
     /\ UNCHANGED sp
 
 (* an undamaged image of a sync point: must open, with exactly that content *)
-MustOpen(d) == d.kind = "intact" /\ sp[d.k].sync /\ sp[d.k].valid
-Vouched(d) == { sp[i].c : i \in { x \in 1..d.upto : sp[x].valid } }
+MustOpenIn(S, d) == d.kind = "intact" /\ S[d.k].sync /\ S[d.k].valid
+VouchedIn(S, d) == { S[i].c : i \in { x \in 1..d.upto : S[x].valid } }
 
-ReopenOK(outcome, content, extent) ==
-    /\ img /= NoImg
+(* the judgement, as a function of the history S and the image descriptor d *)
+ReopenAllowed(S, d, outcome, content, extent) ==
     /\ outcome \in {"ok", "err"}          \* signal / timeout / panic: never
-    /\ outcome = "err" => ~MustOpen(img)
+    /\ outcome = "err" => ~MustOpenIn(S, d)
     /\ outcome = "ok" =>
-         /\ IF MustOpen(img) THEN content = sp[img.k].c ELSE content \in Vouched(img)
-         /\ (extent = <<>> \/ extent[1] <= img.len)   \* every read inside the image
+         /\ IF MustOpenIn(S, d) THEN content = S[d.k].c ELSE content \in VouchedIn(S, d)
+         /\ (IF extent = <<>> THEN TRUE ELSE extent[1] <= d.len)   \* every read inside the image
+
+ReopenOK(outcome, content, extent) == img /= NoImg /\ ReopenAllowed(sp, img, outcome, content, extent)
 
 Reopen(outcome, content, extent) ==
     /\ ReopenOK(outcome, content, extent)
@@ -155,9 +157,9 @@ Reopen(outcome, content, extent) ==
 RawReopenOK(outcome, content) ==
     /\ img /= NoImg
     /\ outcome \in {"ok", "err"}
-    /\ outcome = "err" => ~MustOpen(img)
+    /\ outcome = "err" => ~MustOpenIn(sp, img)
     /\ outcome = "ok" => /\ content = img.raw
-                         /\ MustOpen(img) => content = sp[img.k].c
+                         /\ MustOpenIn(sp, img) => content = sp[img.k].c
 
 RawReopen(outcome, content) ==
     /\ RawReopenOK(outcome, content)
